@@ -53,6 +53,7 @@ type DReload struct {
 type DScenario struct {
 	Fine    bool      `json:"fine_yields,omitempty"` // every larger function entry of the code under test is a preemption point in this run
 	Level   string    `json:"level"`                 // api | composed
+	Stall   int       `json:"yield_stall,omitempty"` // per mille of the scheduling points at which a goroutine of the code under test is held for 1-5 ms (at most 8 per run)
 	Conns   []DConn   `json:"conns"`
 	Reloads []DReload `json:"reloads"`
 }
@@ -105,6 +106,11 @@ func (w *worldD) Generate(r *simrt.Rand, profile, tier string) any {
 	for i, m := 0, r.Pick(1, 6, 2); i < m; i++ {
 		s.Reloads = append(s.Reloads, DReload{AtMs: []int{0, 0, 1, 2, 3, 600, 601}[r.Intn(7)], Fail: r.Bool(25)})
 	}
+	// descheduled threads: a goroutine held for a few milliseconds between two of its steps lets connections that start a
+	// little later run through the whole accept path meanwhile (the oracle of this world has no time bounds)
+	if s.Level == "composed" && r.Bool(50) {
+		s.Stall = []int{5, 15, 40}[r.Intn(3)]
+	}
 	return s
 }
 
@@ -127,6 +133,11 @@ func (w *worldD) Shrink(sc any) []any {
 	for i := range s.Reloads {
 		c := clone()
 		c.Reloads = append(c.Reloads[:i], c.Reloads[i+1:]...)
+		out = append(out, c)
+	}
+	if s.Stall != 0 {
+		c := clone()
+		c.Stall = 0
 		out = append(out, c)
 	}
 	for i, dc := range s.Conns {
@@ -332,6 +343,7 @@ func reloadCounts() (ok, fail float64) {
 func (w *worldD) Run(t *testing.T, profile string, sc any, cfg simrt.Config) *Outcome {
 	s := sc.(*DScenario)
 	cfg.FineYields = s.Fine
+	cfg.YieldStall = s.Stall
 	out := &Outcome{}
 	r := &dRun{s: s, out: out, delivered: map[string]int{}, sent: map[string]string{}, apiRecs: map[*base.LogRecord]string{}}
 	logger.SetOutput(&r.logbuf)
@@ -509,6 +521,9 @@ func (r *dRun) drive() {
 
 func (r *dRun) evaluate(out *Outcome, okGot, failGot int) {
 	prop := "C17"
+	if out.Res.YieldStalls > 0 {
+		out.fault("descheduled_goroutine", out.Res.YieldStalls)
+	}
 	// One cause, many symptoms: when a new connection gets the descriptor number of a connection whose sink is not closed
 	// yet, the shared slot is overwritten (crashes, foreign/concurrent sink use, lost records follow). The code itself logs
 	// the precondition; runs in which it happened are reported under one identity so that every other violation of C17
